@@ -278,8 +278,8 @@ def life_oracle(case, impl):
 PROPS = {
     "C05": dict(
         tables=[],
-        audit_modules=["RodbusModel.Audit.C05"],
-        required_theorems=["Rodbus.chunking_independent", "Rodbus.no_spurious_eof",
+        audit_modules=["RodbusModel.Audit.C05", "RodbusModel.Audit.C05Client"],
+        required_theorems=["Rodbus.Client.rx_chunking_mbap", "Rodbus.Client.rx_chunking_rtu", "Rodbus.chunking_independent", "Rodbus.no_spurious_eof",
                            "Rodbus.bad_header_ends_session", "Rodbus.frames_roundtrip",
                            "Rodbus.no_loss_no_reread", "Rodbus.read_has_space"],
         suites=[dict(gen="rdr_mbap", n=(3000, 60000),
@@ -305,8 +305,8 @@ PROPS = {
     ),
     "C06": dict(
         tables=['length_mode', 'frame_constants'],
-        audit_modules=["RodbusModel.Audit.C06"],
-        required_theorems=["Rodbus.C06.span_unchanged", "Rodbus.C06.corruption_rejected_data_bytes", "Rodbus.C06.length_mode_table_correct", "Rodbus.C06.format_crc", "Rodbus.C06.format_len_le", "Rodbus.C06.accept_sound",
+        audit_modules=["RodbusModel.Audit.C06", "RodbusModel.Audit.C03Run"],
+        required_theorems=["Rodbus.Client.rtu_sent_frames", "Rodbus.C06.span_unchanged", "Rodbus.C06.corruption_rejected_data_bytes", "Rodbus.C06.length_mode_table_correct", "Rodbus.C06.format_crc", "Rodbus.C06.format_len_le", "Rodbus.C06.accept_sound",
                            "Rodbus.C06.rtu_chunking_independent", "Rodbus.C06.burst_detected",
                            "Rodbus.C06.single_bit_detected", "Rodbus.C06.double_bit_detected",
                            "Rodbus.C06.crc_trailer_zero_iff", "Rodbus.C06.corrupted_frame_crc_mismatch",
@@ -339,12 +339,12 @@ PROPS = {
     ),
     "C14": dict(
         tables=[],
-        audit_modules=["RodbusModel.Audit.C14", "RodbusModel.Audit.C14Serial"],
-        required_theorems=["Rodbus.C14.kth_delay_get", "Rodbus.C14.delay_saturates", "Rodbus.C14Serial.run_eq_spec", "Rodbus.C14Serial.announced_delays_conform", "Rodbus.C14Serial.restart_after_disable", "Rodbus.C14Serial.restart_after_port_loss", "Rodbus.C14Serial.no_open_while_disabled", "Rodbus.C14Serial.shutdown_final", "Rodbus.C14.kth_delay", "Rodbus.C14.kth_delay_created", "Rodbus.C14.kth_delay_after_reset",
+        audit_modules=["RodbusModel.Audit.C14", "RodbusModel.Audit.C14Serial", "RodbusModel.Audit.C14Server"],
+        required_theorems=["Rodbus.C14Serial.drop_all_ends_task", "Rodbus.C14Server.run_eq_spec", "Rodbus.C14Server.observed_delays_conform", "Rodbus.C14Server.failures_from_start", "Rodbus.C14Server.restart_after_port_loss", "Rodbus.C14Server.restart_after_bad_frame", "Rodbus.C14Server.shutdown_from_every_state", "Rodbus.C14Server.ended_final", "Rodbus.C14.kth_delay_get", "Rodbus.C14.delay_saturates", "Rodbus.C14Serial.run_eq_spec", "Rodbus.C14Serial.announced_delays_conform", "Rodbus.C14Serial.restart_after_disable", "Rodbus.C14Serial.restart_after_port_loss", "Rodbus.C14Serial.no_open_while_disabled", "Rodbus.C14Serial.shutdown_final", "Rodbus.C14.kth_delay", "Rodbus.C14.kth_delay_created", "Rodbus.C14.kth_delay_after_reset",
                            "Rodbus.C14.disconnect_is_min", "Rodbus.C14.no_overflow", "Rodbus.C14.delay_le_max"],
         suites=[dict(gen="retry", n=(4000, 300000),
                      exhaustive="11x11 lattice of special (min,max) durations incl. 0, Duration::MAX, MAX/2, MAX/2+1"),
-                dict(gen="life", n=(20, 1200), jobs=16), dict(gen="slife", n=(8, 300), jobs=8), dict(gen="pty_cli", n=(10, 200), jobs=16), dict(gen="sport", n=(60, 400), jobs=16)],
+                dict(gen="life", n=(20, 1200), jobs=16), dict(gen="slife", n=(8, 300), jobs=8), dict(gen="pty_cli", n=(10, 200), jobs=16), dict(gen="sport", n=(60, 400), jobs=16), dict(gen="sserver", n=(60, 400), jobs=16)],
         extra_oracle=lambda c, i: life_oracle(c, i) if c.startswith("life ") else None,
         level_text="Proof: kth_delay (by induction on the call sequence, for all (min,max) with max representable and all k: the k-th "
                    "consecutive after_failed_connect since creation/reset returns min*2^(k-1) capped at max), disconnect_is_min, "
@@ -530,8 +530,8 @@ PROPS = {
     ),
     "C07": dict(
         tables=['limits', 'frame_constants'],
-        audit_modules=["RodbusModel.Audit.C07"],
-        required_theorems=["Rodbus.C07.session_outcome", "Rodbus.C07.shutdown_honoured", "Rodbus.C07.reply_fits_writer",
+        audit_modules=["RodbusModel.Audit.C07", "RodbusModel.Audit.C07Client"],
+        required_theorems=["Rodbus.Client.client_phase_outcome_mbap", "Rodbus.Client.client_phase_outcome_rtu", "Rodbus.Client.client_no_spin_mbap", "Rodbus.Client.client_no_spin_rtu", "Rodbus.Client.client_shutdown_honoured", "Rodbus.C07.session_outcome", "Rodbus.C07.shutdown_honoured", "Rodbus.C07.reply_fits_writer",
                            "Rodbus.C07.range_addresses_fit", "Rodbus.C07.reader_errors_are_protocol_errors",
                            "Rodbus.no_spurious_eof", "Rodbus.C06.no_spurious_eof", "Rodbus.C06.peek_in_bounds"],
         suites=[dict(gen="srv_fuzz", n=(3000, 400000)), dict(gen="rdr_fuzz", n=(3000, 400000)),
@@ -590,8 +590,8 @@ PROPS = {
     ),
     "C13": dict(
         tables=[],
-        audit_modules=["RodbusModel.Audit.C13", "RodbusModel.Audit.C14Serial"],
-        required_theorems=["Rodbus.C14Serial.no_open_while_disabled", "Rodbus.C14Serial.shutdown_final", "Rodbus.C13.decode_level_never_dials", "Rodbus.C13.wait_after_failed_attempt", "Rodbus.C13.announced_delays_follow_strategy_failures", "Rodbus.C13.legal_path", "Rodbus.C13.connecting_only_enabled", "Rodbus.C13.no_attempt_while_disabled",
+        audit_modules=["RodbusModel.Audit.C13", "RodbusModel.Audit.C14Serial", "RodbusModel.Audit.C13Serial"],
+        required_theorems=["Rodbus.C13Serial.legal_port_path", "Rodbus.C13Serial.attempt_only_enabled", "Rodbus.C13Serial.wait_causes", "Rodbus.C13Serial.open_causes", "Rodbus.C13Serial.disabled_causes", "Rodbus.C14Serial.drop_all_ends_task", "Rodbus.C14Serial.no_open_while_disabled", "Rodbus.C14Serial.shutdown_final", "Rodbus.C13.decode_level_never_dials", "Rodbus.C13.wait_after_failed_attempt", "Rodbus.C13.announced_delays_follow_strategy_failures", "Rodbus.C13.legal_path", "Rodbus.C13.connecting_only_enabled", "Rodbus.C13.no_attempt_while_disabled",
                            "Rodbus.C13.connected_only_after_connecting", "Rodbus.C13.fail_fast", "Rodbus.C13.shutdown_from_anywhere",
                            "Rodbus.C13.disable_leads_to_disabled", "Rodbus.C13.wait_after_refused",
                            "Rodbus.C13.wait_after_lost_connection", "Rodbus.C13.announced_delays_follow_strategy",
@@ -629,8 +629,8 @@ PROPS = {
     ),
     "C03": dict(
         tables=['function_codes', 'limits', 'frame_constants'],
-        audit_modules=["RodbusModel.Audit.C03"],
-        required_theorems=["Rodbus.C03.tryFrom_ok_iff", "Rodbus.C03.encode_ok_iff", "Rodbus.C03.encode_eq_spec",
+        audit_modules=["RodbusModel.Audit.C03", "RodbusModel.Audit.C03Run"],
+        required_theorems=["Rodbus.Client.sent_is_encoding", "Rodbus.Client.mbap_sent_frames", "Rodbus.Client.rtu_sent_frames", "Rodbus.Client.tx_log_is_sent", "Rodbus.Client.startRequest_emission", "Rodbus.Client.invalid_never_sent", "Rodbus.C03.tryFrom_ok_iff", "Rodbus.C03.encode_ok_iff", "Rodbus.C03.encode_eq_spec",
                            "Rodbus.C03.mbap_frame_eq_spec", "Rodbus.C03.rtu_frame_eq_spec", "Rodbus.C03.encode_len",
                            "Rodbus.C03.mbap_frame_len", "Rodbus.C03.rtu_frame_len", "Rodbus.C03.server_parses_client",
                            "Rodbus.C03.encode_error_kinds"],
